@@ -62,6 +62,7 @@ def enumerate_cases(tier):
         yield {"exps": BOUNDARY}
         yield {"bad_exps": UNREPRESENTABLE}
         yield {"huge_pairs": HUGE_PAIRS}
+        yield {"narrow_exponent_arrays": True}
         bset = [0, 1, 9, 10, 58, 59, 60, 68, 69, 70, 127, 128, 137, 196, 197, 198, 255, 256, 300]
         yield {"pairs": [[a, b] for a in bset for b in bset if a <= b]}
     else:
@@ -70,6 +71,7 @@ def enumerate_cases(tier):
         yield {"exps": BOUNDARY}
         yield {"bad_exps": UNREPRESENTABLE}
         yield {"huge_pairs": HUGE_PAIRS}
+        yield {"narrow_exponent_arrays": True}
         for a in range(0, 601):
             yield {"pairs": [[a, b] for b in range(a, 601 - a)]} if a <= 300 else {"pairs": []}
 
@@ -209,6 +211,36 @@ def check_case(case, ctx):
                                              % (cname, e, p.exponents.tolist()), case={"bad_exps": [e]}))
         ctx.add_evals(len(case["bad_exps"]), len(case["bad_exps"]))
         ctx.label("enumerated:unrepresentable")
+        return fails
+    if "narrow_exponent_arrays" in case:
+        # exponents handed over as numpy arrays of a narrow integer type, at the type's upper end: adding the
+        # key offset must not happen in that type
+        n = nt = 0
+        for dt in ("uint8", "int8", "uint16", "int16", "uint32", "int32", "int64", "uint64"):
+            top = min(int(numpy.iinfo(dt).max), 100000)
+            for e in sorted({top, top - 1, top - 58, top - 59, top - 60, 200 if top >= 200 else top, 1}):
+                arr = numpy.array([[e, 1]], dtype=dt)
+                for cname, ctor in (
+                        ("ndpoly", lambda a: numpoly.ndpoly(exponents=a, shape=())),
+                        ("polynomial_from_attributes", lambda a: numpoly.polynomial_from_attributes(a, [3])),
+                        ("polynomial_from_attributes(retain)", lambda a: numpoly.polynomial_from_attributes(
+                            a, [3], retain_coefficients=True, retain_names=True)),
+                        ("ndpoly.from_attributes(retain)", lambda a: numpoly.ndpoly.from_attributes(
+                            a, [3], retain_coefficients=True, retain_names=True))):
+                    n += 1
+                    nt += e >= 69
+                    try:
+                        p = ctor(arr.copy())
+                        got = p.exponents.tolist()
+                    except Exception as err:
+                        got = "raised %r" % (err,)
+                    if got != [[e, 1]]:
+                        key = "narrow-exponent-array:%s" % ("exception" if isinstance(got, str) else "value")
+                        if not any(f.bucket == key for f in fails):
+                            fails.append(Failure(key, "%s with exponents %s(%s): %s" % (cname, dt, [[e, 1]], got),
+                                                 case={"narrow_exponent_arrays": True}))
+        ctx.add_evals(n, nt)
+        ctx.label("enumerated:narrow-exponent-arrays")
         return fails
     if "huge_pairs" in case:
         limit = 2 ** 32 - 60
